@@ -109,6 +109,12 @@ def gen_literals(rng, tier):
         out.append(("dna", "".join(rng.choice(dna) for _ in range(n))))
     for n in sorted(set(list(range(0, 20)) + [31, 32, 33, 47, 48, 49, 64, 65, 100, 129])):
         out.append(("iupac", "".join(rng.choice(iup) for _ in range(n))))
+    # long literals (the macro may treat them differently); the last symbols are never the zero code,
+    # and the bit lengths are not multiples of 8, 32 or 64
+    for n in (511, 513, 515, 1001, 1030):
+        out.append(("dna", "".join(rng.choice(dna) for _ in range(n - 3)) + "".join(rng.choice("CGT") for _ in range(3))))
+    for n in (255, 257, 301, 513):
+        out.append(("iupac", "".join(rng.choice(iup) for _ in range(n - 2)) + "".join(rng.choice(iup[:15]) for _ in range(2))))
     for c in dna:
         out.append(("dna", c * 33))
     for c in iup:
@@ -299,7 +305,18 @@ def decl_rust(d, name):
             c = chr(v["display"])
             out.append("    #[display('%s')]" % ("\\'" if c == "'" else c))
         if v["alts"]:
-            out.append("    #[alt(%s)]" % ", ".join(str(a) for a in v["alts"]))
+            # the alternatives of a variant may be listed in one attribute or spread over several, in
+            # any literal form
+            def alit(a, k):
+                return [str(a), "0b" + format(a, "b"), "0x%X" % a][(a + k) % 3]
+            al = v["alts"]
+            if len(al) >= 2 and (v["disc"] + len(al)) % 2 == 0:
+                cut = 1 + (v["disc"] % (len(al) - 1))
+                groups = [al[:cut], al[cut:]]
+            else:
+                groups = [al]
+            for g in groups:
+                out.append("    #[alt(%s)]" % ", ".join(alit(a, v["disc"]) for a in g))
         out.append("    %s = %s," % (v["name"], lit(v)))
     out.append("}")
     return "\n".join(out)
